@@ -25,6 +25,18 @@ CHECKS = {
         "Trusted: Python statement semantics; premise that decoders return non-empty in-bounds hits.",
         "DESIGN.md 2.6, 3/C06",
     ),
+    "C17": (
+        "guard truth tables with integer theory (boundary test, MixedCase per-byte test), find-advance loop template, constructor-argument provenance through Node.__init__'s signature",
+        "Decides the whole mechanism of keyword.find_all / find_keywords / is_mixed_case: the boundary formula equals the statement's, both search operands are lower-cased, the search starts at 0 and advances by len(keyword) on every path, empty keywords are rejected, type/value/span roles and the MixedCase formula are the documented ones.",
+        "Trusted: bytes.find/lower/isalnum/isupper/islower (ASCII semantics, matching the statement).",
+        "DESIGN.md 3/C17",
+    ),
+    "C18": (
+        "agreement tables (marker writer/reader, find_* census vs @decoder, import table), filter truth table, call-shape match of the keyword walk, def-use of configuration parameters",
+        "Decides marker agreement, that every module-level decoder is registered exactly once and visible to the module walk, that the include/exclude filter equals the statement's formula, the shape of the keyword-file walk (recursive, per-file partial typed by file name, blank lines dropped, empty files skipped) and that directory/include/exclude flow only where the statement says.",
+        "Trusted: pkgutil.iter_modules, inspect.getmembers, os.walk, functools.partial. Order of enumeration is C09's concern.",
+        "DESIGN.md 3/C18",
+    ),
     "C07": (
         "reaching-condition dominance (truth table over the depth guard) + linear form of recursive depth arguments + def-use census of the depth parameter",
         "Static analysis of scan/scan_node: every decoder call, recursive call and tree mutation is dominated by DEPTH >= 1; every recursive call passes DEPTH - c, c >= 1; the depth parameter flows nowhere else. These three facts are the whole truncation mechanism; the prefix relation between the trees for k and k+1 is a paper consequence of them plus C08, not mechanically proved.",
